@@ -224,11 +224,10 @@ def getEim (m : Maps) (ip : UInt32) (port : UInt16) (proto : UInt8) (sub : SubNa
   match AMap.lookup m.eim key with
   | some e => (m.eim, sub, some e)
   | none =>
-    let (sub', ext) := allocatePort m.eim (m.cfgHas NAT_FLAG_PORT_PARITY) port ip proto sub
-    if ext == 0 then (m.eim, sub', none)
-    else
-      let e : EimMapping := { extIp := sub'.publicIp, extPort := ext }
-      (AMap.insert m.eim key e, sub', some e)
+    let a := allocatePort m.eim (m.cfgHas NAT_FLAG_PORT_PARITY) port ip proto sub
+    if a.2 == 0 then (m.eim, a.1, none)
+    else (AMap.insert m.eim key { extIp := a.1.publicIp, extPort := a.2 }, a.1,
+          some { extIp := a.1.publicIp, extPort := a.2 })
 
 /-! ### nat44_egress -/
 
@@ -300,34 +299,40 @@ inductive NatDecision where
   | nat (ip : UInt32) (port : UInt16)
   deriving Repr
 
+/-- the "new session" part of nat44_egress: EIM lookup/creation when enabled, otherwise (or when that
+    yields nothing) a port from the block: updated eim table, updated block, the translation
+    (`none` = port exhaustion) -/
+def egressChoose (m : Maps) (p : Pkt) (sub : SubNat) :
+    AMap EimKey EimMapping × SubNat × Option (UInt32 × UInt16) :=
+  let r := if m.cfgHas NAT_FLAG_EIM_ENABLED then getEim m p.saddr p.sport p.proto sub else (m.eim, sub, none)
+  match r.2.2 with
+  | some e => (r.1, r.2.1, some (e.extIp, bswap16 e.extPort))
+  | none =>
+    let a := allocatePort r.1 (m.cfgHas NAT_FLAG_PORT_PARITY) (bswap16 p.sport) p.saddr p.proto r.2.1
+    if a.2 == 0 then (r.1, a.1, none) else (r.1, a.1, some (a.1.publicIp, bswap16 a.2))
+
+/-- the connection-tracking key nat44_egress builds -/
+def sessKey (p : Pkt) : NatKey :=
+  { srcIp := p.saddr, dstIp := p.daddr, srcPort := p.sport, dstPort := p.dport, proto := p.proto }
+
 /-- the session lookup / EIM / port allocation / session creation part of nat44_egress:
     updated maps, decision, ring-buffer records emitted -/
 def egressNat (m : Maps) (clk : UInt64) (p : Pkt) (sub : SubNat) : Maps × NatDecision × Nat :=
-  let key : NatKey :=
-    { srcIp := p.saddr, dstIp := p.daddr, srcPort := p.sport, dstPort := p.dport, proto := p.proto }
-  match AMap.lookup m.sessions key with
+  match AMap.lookup m.sessions (sessKey p) with
   | some s =>
-    ({ m with sessions := AMap.insert m.sessions key { s with lastSeen := clk } }, .nat s.natIp s.natPort, 0)
+    ({ m with sessions := AMap.insert m.sessions (sessKey p) { s with lastSeen := clk } }, .nat s.natIp s.natPort, 0)
   | none =>
-    let (eimT, sub1, eim) :=
-      if m.cfgHas NAT_FLAG_EIM_ENABLED then getEim m p.saddr p.sport p.proto sub else (m.eim, sub, none)
-    let (sub2, choice) : SubNat × Option (UInt32 × UInt16) :=
-      match eim with
-      | some e => (sub1, some (e.extIp, bswap16 e.extPort))
-      | none =>
-        let (sub2, port) :=
-          allocatePort eimT (m.cfgHas NAT_FLAG_PORT_PARITY) (bswap16 p.sport) p.saddr p.proto sub1
-        if port == 0 then (sub2, none) else (sub2, some (sub2.publicIp, bswap16 port))
-    let m1 := { m with eim := eimT, subNat := AMap.insert m.subNat p.saddr sub2 }
-    match choice with
+    let c := egressChoose m p sub
+    let m1 := { m with eim := c.1, subNat := AMap.insert m.subNat p.saddr c.2.1 }
+    match c.2.2 with
     | none => (m1, .shot, 1)
-    | some (natIp, natPort) =>
+    | some np =>
       let sess : Session :=
-        { natIp := natIp, natPort := natPort, origPort := p.sport, origIp := p.saddr, lastSeen := clk }
+        { natIp := np.1, natPort := np.2, origPort := p.sport, origIp := p.saddr, lastSeen := clk }
       let rev : NatKey :=
-        { srcIp := p.daddr, dstIp := natIp, srcPort := p.dport, dstPort := natPort, proto := p.proto }
-      ({ m1 with sessions := AMap.insert m1.sessions key sess, reverse := AMap.insert m1.reverse rev key },
-       .nat natIp natPort, 1)
+        { srcIp := p.daddr, dstIp := np.1, srcPort := p.dport, dstPort := np.2, proto := p.proto }
+      ({ m1 with sessions := AMap.insert m1.sessions (sessKey p) sess, reverse := AMap.insert m1.reverse rev (sessKey p) },
+       .nat np.1 np.2, 1)
 
 /-- "Perform SNAT" part of nat44_egress: rewrites source address, IP checksum, L4 source port / ICMP id
     and L4 checksum in place. `dataEnd` is the `data_end` captured at program entry. -/
